@@ -817,3 +817,106 @@ def m_ordering_then(engine, ctx, args, callee, frame):
     if var != "Equal":
         return o
     return engine.call_closure(args[1], []) if name == "then_with" else args[1]
+
+
+@model(r"^(HashSet|IndexSet|BTreeSet)::<.*>::replace$")
+def m_set_replace(engine, ctx, args, callee, frame):
+    """adds the value, replacing (and returning) an equal one that is already there"""
+    st = get_map(args[0])
+    for i, k in enumerate(st.items):
+        if key_eq(engine, ctx, k, args[1]):
+            st.items[i] = args[1]
+            return some(k)
+    st.insert(engine, ctx, args[1])
+    return none()
+
+
+@model(r"^IndexSet::<.*>::(insert_full|replace_full)$")
+def m_indexset_insert_full(engine, ctx, args, callee, frame):
+    st = get_map(args[0])
+    for i, k in enumerate(st.items):
+        if key_eq(engine, ctx, k, args[1]):
+            if callee.endswith("replace_full"):
+                st.items[i] = args[1]
+                return Agg("tuple", "tuple", [Cell(Int(i, 64)), Cell(some(k))])
+            return Agg("tuple", "tuple", [Cell(Int(i, 64)), Cell(False)])
+    st.items.append(args[1])
+    if callee.endswith("replace_full"):
+        return Agg("tuple", "tuple", [Cell(Int(len(st.items) - 1, 64)), Cell(none())])
+    return Agg("tuple", "tuple", [Cell(Int(len(st.items) - 1, 64)), Cell(True)])
+
+
+# ------------------------------------------------------------------ chunks / copy_from_slice
+
+@model(r"^core::slice::<impl \[.*\]>::(chunks|chunks_exact)$")
+def m_slice_chunks(engine, ctx, args, callee, frame):
+    """sub-slices of n elements; `chunks` keeps a shorter last chunk, `chunks_exact` drops it"""
+    v = args[0]
+    n = ctx.concretize(args[1], 4096, "chunk size")
+    if n == 0:
+        raise Panic("chunk size must be non-zero", _site(frame))
+    exact = callee.endswith("chunks_exact")
+    tgt = engine.apply_window(v) if (isinstance(v, Ref) and v.window is not None) else deref(v)
+    out = []
+    if isinstance(tgt, Bytes):
+        total = ctx.concretize(tgt.len, 4096, "length of a chunked slice")
+        k = 0
+        while k < total:
+            m = min(n, total - k)
+            if m < n and exact:
+                break
+            out.append(Cell(Ref(Cell(Bytes(tgt.arr, int_binop("Add", tgt.off, Int(k, 64)), Int(m, 64))))))
+            k += m
+    else:
+        items = seq_cells(engine, ctx, v)
+        for k in range(0, len(items), n):
+            part = items[k:k + n]
+            if len(part) < n and exact:
+                break
+            out.append(Cell(Ref(Cell(VecV("_", part)))))
+    return IterV("seq", items=out, idx=0, end=len(out), by_ref=False)
+
+
+@model(r"^core::slice::<impl \[.*\]>::(copy_from_slice|clone_from_slice)$")
+def m_copy_from_slice(engine, ctx, args, callee, frame):
+    dst_cell = deref_cell(args[0])
+    dst = dst_cell.v
+    src = args[1]
+    sb = None
+    try:
+        sb = M.as_bytes(engine, src)
+    except Untranslatable:
+        pass
+    if isinstance(dst, Agg) and dst.kind == "array" and sb is not None:
+        n = len(dst.fields)
+        if not ctx.branch(int_binop("Eq", sb.len, Int(n, 64))):
+            raise Panic("source slice length does not match destination slice length (%d)" % n, _site(frame), kind="bounds")
+        for i, c in enumerate(dst.fields):
+            c.v = sb.byte(i)
+        return unit()
+    if isinstance(dst, Bytes) and sb is not None:
+        if not ctx.branch(int_binop("Eq", sb.len, dst.len)):
+            raise Panic("source slice length does not match destination slice length", _site(frame), kind="bounds")
+        n = ctx.concretize(dst.len, 4096, "copy length")
+        arr = dst.arr
+        for i in range(n):
+            arr = z3.Store(arr, int_binop("Add", dst.off, Int(i, 64)).z3(), sb.byte(i).z3())
+        dst_cell.v = Bytes(arr, dst.off, dst.len, getattr(dst, "utf8", False))
+        return unit()
+    d_items = seq_cells(engine, ctx, args[0])
+    s_items = seq_cells(engine, ctx, src)
+    if len(d_items) != len(s_items):
+        raise Panic("source slice length (%d) does not match destination slice length (%d)" % (len(s_items), len(d_items)), _site(frame), kind="bounds")
+    for d, x in zip(d_items, s_items):
+        d.v = deep_copy(x.v)
+    return unit()
+
+
+@model(r"^core::slice::<impl \[.*\]>::concat::<u8>$")
+def m_slice_concat_u8(engine, ctx, args, callee, frame):
+    out = []
+    for c in seq_cells(engine, ctx, args[0]):
+        b = M.as_bytes(engine, c.v)
+        n = ctx.concretize(b.len, 4096, "concat part length")
+        out += [b.byte(i) for i in range(n)]
+    return M.bytes_from_ints(out)
